@@ -715,9 +715,8 @@ func IsValidFilter(filter string, forPublish bool) bool {
 			return false
 		}
 
-		if strings.ContainsRune(filter, '+') || strings.ContainsRune(filter, '#') {
-			return false //[MQTT-3.3.2-2]
-		}
+		// a topic name is valid if it has no wildcards; the share rules below only concern filters.
+		return !strings.ContainsRune(filter, '+') && !strings.ContainsRune(filter, '#') //[MQTT-3.3.2-2]
 	}
 
 	wildhash := strings.IndexRune(filter, '#')
